@@ -475,6 +475,69 @@ func init() {
 		l.p("/-- … and in both the `<other>` of the wait condition is the CLAMPED limit (so that a request with `Limit > QueryMaxLimit` still waits) -/")
 		l.p("def queryLoopComparesClampedLimit : Bool := %s", leanBool(bl.clamps && bl.condUsesClamped && rl.clamps && rl.condUsesClamped))
 
+		// --- api.Select (the documented client loop for waiting): every path of its loop that goes round again has taken the
+		// continuation request. By structure: the request parameter is the *QueryRequest parameter of Select; inside the `for`
+		// loop it is re-assigned from `&<result>.NextQueryRequest`; that assignment must be a top-level statement of the loop
+		// body (not under a condition), and no `continue` of this loop may come before it.
+		clf := parseFile("api/client.go")
+		takesNext := false
+		if fd := funcDecl(clf, "", "Select"); fd == nil {
+			problem("api.Select not found")
+		} else {
+			reqParam := ""
+			for _, f := range fd.Type.Params.List {
+				if st, ok := f.Type.(*ast.StarExpr); ok && strings.Contains(c11Idents(st.X), "QueryRequest") && len(f.Names) == 1 {
+					reqParam = f.Names[0].Name
+				}
+			}
+			var loop *ast.ForStmt
+			ast.Inspect(fd.Body, func(n ast.Node) bool {
+				if fs, ok := n.(*ast.ForStmt); ok && loop == nil {
+					loop = fs
+				}
+				return loop == nil
+			})
+			if reqParam == "" || loop == nil {
+				problem("api.Select: the request parameter or the loop was not found")
+			} else {
+				var assignPos token.Pos
+				for _, st := range loop.Body.List {
+					if as, ok := st.(*ast.AssignStmt); ok && len(as.Lhs) == 1 && len(as.Rhs) == 1 && c11IsIdent(as.Lhs[0], reqParam) {
+						if ue, ok := as.Rhs[0].(*ast.UnaryExpr); ok && ue.Op == token.AND && c11IsSel(ue.X, "NextQueryRequest") && assignPos == 0 {
+							assignPos = as.Pos()
+						}
+					}
+				}
+				earlyContinue := false
+				var walk func(n ast.Node)
+				walk = func(n ast.Node) {
+					ast.Inspect(n, func(m ast.Node) bool {
+						switch x := m.(type) {
+						case *ast.ForStmt, *ast.RangeStmt, *ast.FuncLit:
+							if m != ast.Node(loop) {
+								return false // a `continue` in there belongs to another loop
+							}
+						case *ast.BranchStmt:
+							if x.Tok == token.CONTINUE && (assignPos == 0 || x.Pos() < assignPos) {
+								earlyContinue = true
+							}
+						}
+						return true
+					})
+				}
+				walk(loop.Body)
+				if assignPos == 0 {
+					// no unconditional continuation at all: either it is missing, or it sits under a condition the extractor does
+					// not follow — the fact is false and the obligation that names it breaks
+					takesNext = false
+				} else {
+					takesNext = !earlyContinue
+				}
+			}
+		}
+		l.p("/-- `api.Select`: in its loop the request is replaced by `&res.NextQueryRequest` unconditionally, and no `continue` comes before that — every further request continues where the previous answer ended -/")
+		l.p("def clientSelectTakesNextRequest : Bool := %s", leanBool(takesNext))
+
 		maxLimit := -1
 		if bf != nil {
 			ast.Inspect(bf, func(n ast.Node) bool {
